@@ -60,7 +60,8 @@ def extra_stage(rep, tier, seed, scripts, solo, broken):
     diffs = 0
     first = None
     for i, (sid, ls) in enumerate(use):
-        a, b = solo.get(sid, ['<no output>']), conc.get(sid, ['<no output>'])
+        a = [x for x in solo.get(sid, ['<no output>']) if not x.startswith('LEAKCHECK')]
+        b = [x for x in conc.get(sid, ['<no output>']) if not x.startswith('LEAKCHECK')]
         d = vlib.first_diff(a, b)
         if d is not None:
             diffs += 1
